@@ -227,6 +227,17 @@ def serial (C : SCtx) : Nat → Nat → Str → SV → WR JV
       | .absent => .absent
       | .throw => .throw
       | .oof => .oof
+    | .objP own ne proto =>
+      -- JO: K = PropertyList, else the OWN ENUMERABLE keys; each member is value.[[Get]](P), which
+      -- finds own properties (enumerable or not) and then follows the prototype chain
+      let r := match C.plist with
+        | some ks => serialList C fuel (depth + 1) (SMs.app own (SMs.app ne proto)) ks
+        | none => serialObj C fuel (depth + 1) own
+      match r with
+      | .val a => .val (.obj a)
+      | .absent => .absent
+      | .throw => .throw
+      | .oof => .oof
     | .tojson _ => .val (.obj .nil)               -- own property `toJSON` is a function: omitted
     | _ => .absent                                -- 11: undefined, callable objects
 /-- JA: every index; undefined becomes null -/
